@@ -31,6 +31,9 @@ type Cell struct {
 	Consumers int    `json:"consumers"`
 	Engine    bool   `json:"engine_level,omitempty"`
 	SlowLoad  bool   `json:"cancel_while_reading_input,omitempty"`
+	// EndWhileSkipping: a real engine run whose profile (3 requests) is over while the provider is
+	// still reading — slowly — through a long stretch of blank lines behind the third entry
+	EndWhileSkipping bool `json:"profile_ends_while_provider_reads_blank_lines,omitempty"`
 	PreCancel bool   `json:"cancelled_before_run,omitempty"`
 	OsFs      bool   `json:"files_on_real_filesystem,omitempty"`
 }
@@ -374,6 +377,10 @@ func cancelledBeforeRun(res *vkit.Result, c Cell) {
 }
 
 func runCell(res *vkit.Result, c Cell, watchdog time.Duration, final bool) string {
+	if c.EndWhileSkipping {
+		endWhileSkipping(res, c)
+		return ""
+	}
 	if c.SlowLoad {
 		cancelWhileLoading(res, c)
 		return ""
@@ -421,6 +428,61 @@ func runCell(res *vkit.Result, c Cell, watchdog time.Duration, final bool) strin
 		res.Count("end_cancelled", 1)
 	}
 	return ""
+}
+
+// endWhileSkipping: three entries, then 1.5 MiB of blank lines, then one more entry, read through
+// the slow filesystem (4 KiB and 2 ms per Read). The profile holds three requests: they are fired
+// at once and the run is over while the provider is still working its way through the blank
+// lines. That is a normal end: Engine.Run must return nil and three requests be fired.
+func endWhileSkipping(res *vkit.Result, c Cell) {
+	typ, head := httpFile(c.Kind, 3)
+	_, tail := httpFile(c.Kind, 1)
+	blank := "\n"
+	if c.Kind == "jsonline-lines" {
+		blank = " \n"
+	}
+	data := append(append(append([]byte(nil), head...), []byte(strings.Repeat(blank, (1500<<10)/len(blank)))...), tail...)
+	path := fmt.Sprintf("/slow/c08-skip-%d", slowSeq.Add(1))
+	_ = vkit.WriteMemAt(path, data)
+	defer vkit.RemoveMem(path)
+	p, err := vkit.NewProvider(map[string]any{"type": typ, "file": path})
+	if err != nil {
+		res.Violate(key(c, "rejected"), fmt.Sprintf("valid provider config rejected: %v", err), c)
+		return
+	}
+	var fired atomic.Int64
+	eng := engine.New(vkit.NopLog(), vkit.NewMetrics(), engine.Config{Pools: []engine.InstancePoolConfig{{
+		ID: "p", Provider: p, Aggregator: &vkit.MockAggregator{}, NewGun: func() (core.Gun, error) { return &countGun{n: &fired}, nil },
+		NewRPSSchedule:  func() (core.Schedule, error) { return schedule.NewOnce(3), nil },
+		StartupSchedule: schedule.NewOnce(1), DiscardOverflow: false,
+	}}})
+	done := make(chan error, 1)
+	ctx, cancel := context.WithCancel(context.Background())
+	defer cancel()
+	start := vkit.SlowReads.Load()
+	go func() { done <- eng.Run(ctx) }()
+	select {
+	case err = <-done:
+	case <-time.After(30 * time.Second):
+		res.Violate(key(c, "hang"), fmt.Sprintf("engine run did not end within 30 s (fired %d of 3)", fired.Load()), c)
+		return
+	}
+	reads := vkit.SlowReads.Load() - start
+	wd := make(chan struct{})
+	go func() { eng.Wait(); close(wd) }()
+	select {
+	case <-wd:
+	case <-time.After(30 * time.Second):
+		res.Violate(key(c, "hang"), "Engine.Wait did not return within 30 s", c)
+		return
+	}
+	if err != nil {
+		res.Violate(key(c, "run-failed"), fmt.Sprintf("the profile's 3 requests were fired and the run was over while the provider was still reading its input (%d reads made): the run ended with error %q", reads, err), c)
+	}
+	if fired.Load() != 3 {
+		res.Violate(key(c, "fired"), fmt.Sprintf("%d shots fired, want 3", fired.Load()), c)
+	}
+	res.Count("engine_runs_ending_while_provider_reads", 1)
 }
 
 func runEngine(res *vkit.Result, c Cell, p core.Provider, exp int, watchdog time.Duration, final bool) string {
@@ -482,6 +544,9 @@ func cells(kind string) []Cell {
 	if kind == "uri" || kind == "uripost" || kind == "raw" || kind == "jsonline-lines" || kind == "grpc/json" {
 		for _, pre := range preloads {
 			out = append(out, Cell{Kind: kind, Preload: pre, SlowLoad: true, Consumers: 1})
+		}
+		if kind != "grpc/json" {
+			out = append(out, Cell{Kind: kind, EndWhileSkipping: true, Engine: true, Consumers: 1})
 		}
 	}
 	for _, pre := range preloads {
@@ -568,7 +633,7 @@ func main() {
 	for _, k := range kinds {
 		var cs []Cell
 		for i, c := range cells(k) {
-			if !c.SlowLoad && (vkit.Thorough() || i%6 == 0) {
+			if !c.SlowLoad && !c.EndWhileSkipping && (vkit.Thorough() || i%6 == 0) {
 				c.OsFs = true
 				cs = append(cs, c)
 			}
